@@ -31,7 +31,8 @@ bool CodeWriterUtils::encode_offset32(uint32_t* dst, int64_t offset64, const Off
   if (format.has_sign_bit()) {
     u = uint32_t(offset64 >= 0);
     if (u == 0) {
-      offset64 = -offset64;
+      // Negate as unsigned - `-INT64_MIN` is undefined (the result stays negative and is rejected below).
+      offset64 = int64_t(uint64_t(0) - uint64_t(offset64));
     }
     unsigned_logic = true;
   }
